@@ -1064,6 +1064,48 @@ func execTree07(rng *Rng) (tree07, bool) {
 	return t, true
 }
 
+// nsTwinTree07: two resources of one kind and name, one without a namespace and one already in the namespace that a
+// NamespaceTransformer configured under `transformers:` (with or without unsetOnly) moves the other one to: the
+// transformer's id-conflict test - and, should it be bypassed, IgnoreLocal's rebuild of the map - must refuse the build.
+func nsTwinTree07(rng *Rng) tree07 {
+	var t tree07
+	if rng.Chance(50) {
+		t = genTree07(rng)
+	} else {
+		t = tree07{Files: map[string]string{}, Dir: "/top", Reorder: rng.Pick([]string{"none", "none", "legacy"})}
+		t.Files["/top/kustomization.yaml"] = "apiVersion: kustomize.config.k8s.io/v1beta1\nkind: Kustomization\n"
+	}
+	top := t.Files[t.Dir+"/kustomization.yaml"]
+	// the top layer's own namespace / name directives would move or rename the twins themselves
+	var keep []string
+	for _, line := range strings.SplitAfter(top, "\n") {
+		if strings.HasPrefix(line, "namespace:") || strings.HasPrefix(line, "namePrefix:") || strings.HasPrefix(line, "nameSuffix:") {
+			continue
+		}
+		keep = append(keep, line)
+	}
+	top = strings.Join(keep, "")
+	target := rng.Pick([]string{"prod", "twinns"})
+	kind := rng.Pick([]string{"ConfigMap", "ConfigMap", "Secret", "ServiceAccount"})
+	body := ""
+	if kind == "ConfigMap" {
+		body = "data:\n  k: v\n"
+	}
+	t.Files[t.Dir+"/zz-twins.yaml"] = fmt.Sprintf("apiVersion: v1\nkind: %s\nmetadata:\n  name: settings\n%s---\napiVersion: v1\nkind: %s\nmetadata:\n  name: settings\n  namespace: %s\n%s",
+		kind, body, kind, target, body)
+	unset := rng.Chance(70)
+	t.Files[t.Dir+"/zz-nst.yaml"] = fmt.Sprintf("apiVersion: builtin\nkind: NamespaceTransformer\nmetadata:\n  name: nst\n  namespace: %s\nunsetOnly: %v\nfieldSpecs:\n- path: metadata/namespace\n  create: true\n", target, unset)
+	if strings.Contains(top, "resources:\n") {
+		top = strings.Replace(top, "resources:\n", "resources:\n- zz-twins.yaml\n", 1)
+	} else {
+		top += "resources:\n- zz-twins.yaml\n"
+	}
+	top += "transformers:\n- zz-nst.yaml\n"
+	t.Files[t.Dir+"/kustomization.yaml"] = top
+	t.Note = fmt.Sprintf("namespace twins, NamespaceTransformer unsetOnly=%v", unset)
+	return t
+}
+
 func runBuilds07(r *Run, rng *Rng, corp corpus07, n int, tier string) error {
 	for _, t := range corp.Builds {
 		r.Count("build_kind", "corpus")
@@ -1079,6 +1121,13 @@ func runBuilds07(r *Run, rng *Rng, corp corpus07, n int, tier string) error {
 				finalCase07(r, t)
 				continue
 			}
+		}
+		if i%8 == 5 {
+			t := nsTwinTree07(g)
+			r.Count("build_kind", "namespace-twins")
+			checkBuild07(r, t, false)
+			finalCase07(r, t)
+			continue
 		}
 		if i%8 == 3 {
 			if t, ok := execTree07(g); ok {
